@@ -44,7 +44,7 @@ func sameOrder(a, b []cid.Cid) bool {
 
 func c20Case(c c05Case, viol func(sig, detail string), r *core.Run) {
 	switch c.Kind {
-	case "file":
+	case "file", "hand":
 		c20File(c, viol, r)
 	case "shard":
 		c20Shard(c, viol, r)
@@ -54,7 +54,7 @@ func c20Case(c c05Case, viol func(sig, detail string), r *core.Run) {
 }
 
 func c20File(c c05Case, viol func(sig, detail string), r *core.Run) {
-	s, root, _, err := c.File.build()
+	s, root, err := c.buildFile()
 	if err != nil {
 		viol("build-error", fmt.Sprintf("%s: %v", c, err))
 		return
@@ -65,6 +65,27 @@ func c20File(c c05Case, viol func(sig, detail string), r *core.Run) {
 		return
 	}
 	want := store.FirstReads(tree.DFS()[1:]) // the root is loaded by the caller
+	// a block with an empty byte span may or may not be opened by a read: the
+	// order is checked over the blocks that are requested, all others must be
+	emptySpan := tree.EmptySpan()
+	full := want
+	filterWant := func(got []cid.Cid) []cid.Cid {
+		in := model.CidSet(got)
+		var w2 []cid.Cid
+		for _, c := range full {
+			if !emptySpan[c.KeyString()] || in[c.KeyString()] {
+				w2 = append(w2, c)
+			}
+		}
+		return w2
+	}
+	class := "file"
+	if c.Kind == "hand" {
+		class = "hand-sized"
+		if spec, ok := gen.HandByLabel(c.Hand); ok && spec.BlockSizes != "all" {
+			class = "hand-unsized"
+		}
+	}
 	if r != nil {
 		r.States.Add(1)
 	}
@@ -133,8 +154,9 @@ func c20File(c c05Case, viol func(sig, detail string), r *core.Run) {
 				viol("op-error "+name, fmt.Sprintf("%s: %v", c, err))
 				break
 			}
+			want := filterWant(got)
 			if !sameOrder(got, want) {
-				viol("load-order file "+name, fmt.Sprintf("%s run %d: first requests %s, depth-first link order is %s", c, rep, shortList(got), shortList(want)))
+				viol("load-order "+class+" "+name, fmt.Sprintf("%s run %d: first requests %s, depth-first link order is %s", c, rep, shortList(got), shortList(want)))
 				break
 			}
 		}
@@ -286,6 +308,11 @@ func runC20(r *core.Run) {
 	}
 	for _, f := range files {
 		cases = append(cases, c05Case{Kind: "file", File: f})
+	}
+	// legal encodings neither writer emits: dag-pb leaves, absent BlockSizes /
+	// FileSize, empty chunks in the middle
+	for _, h := range gen.HandFamily() {
+		cases = append(cases, c05Case{Kind: "hand", Hand: h.Label})
 	}
 	usize := 10
 	fanouts := []int{8, 16, 256}
